@@ -211,6 +211,39 @@ def judge_source(ctx, src, ref, feats, ast, profile):
     return 'bad'
 
 
+def collect_macros(nodes, acc):
+    for nd in nodes or []:
+        if not isinstance(nd, (list, tuple)) or not nd:
+            continue
+        if nd[0] == 'macro':
+            acc.add((nd[1], len(nd[2])))
+            collect_macros(nd[3], acc)
+        else:
+            for x in nd[1:]:
+                if isinstance(x, list):
+                    collect_macros(x, acc)
+
+
+def judge_undefined_macro(ctx, src, name):
+    functions, parsing, tools, _, _ = env.mods()
+    ctx.evaluated()
+    ctx.count('undefined_macro_calls')
+    for how in ('compile_script', 'Script.from_src'):
+        try:
+            got = parsing.compile_script(src) if how == 'compile_script' \
+                else tools.Script.from_src(src).bytes
+        except BaseException:
+            continue
+        ctx.violation('accepted-undefined-macro', f'{how} accepted a call of '
+                      f'macro {name!r}, which this source does not define (an '
+                      'earlier compile in the same process did): the result '
+                      'depends on earlier calls', {'kind': 'undef-macro',
+                                                   'src': src, 'name': name},
+                      'rejected', got.hex()[:200])
+        return
+    ctx.mark_nontrivial(dg(src))
+
+
 def run_shard(spec, ctx):
     i, of = spec['shard'], spec['of']
     tier = ctx.tier
@@ -225,6 +258,7 @@ def run_shard(spec, ctx):
         ctx.tab('battery', r)
         ctx.mark_nontrivial(dg(src))
     n = NPROG[tier] // of
+    earlier_macros = []         # (name, number of arguments), earlier programs
     for j in range(n):
         rng = ctx.rng(j)
         depth = rng.choice((0, 1, 2, 3, 4, 4))
@@ -256,6 +290,20 @@ def run_shard(spec, ctx):
                 ctx.mark_nontrivial(dg(src))
             if j % 500 == 0 and pname == 'wild' and res == 'ok' and len(src) < 600:
                 ctx.sample({'src': src, 'bytes': ref, 'features': sorted(feats)})
+        # a call of a macro this source does not define (an EARLIER source of
+        # the same process defined it) cannot be encoded: it must be rejected
+        mine = set()
+        collect_macros(ast, mine)
+        foreign = [m for m in earlier_macros if m[0] not in
+                   {x[0] for x in mine}]
+        if foreign and j % 7 == 0:
+            name, nargs = foreign[rng.randrange(len(foreign))]
+            src2 = f'true !{name} [ ' + 'x01 ' * nargs + '] false'
+            judge_undefined_macro(ctx, src2, name)
+        for m in mine:
+            if m not in earlier_macros:
+                earlier_macros.append(m)
+        del earlier_macros[:-40]
 
 
 def finalize(agg, tier):
@@ -267,6 +315,8 @@ def finalize(agg, tier):
     accw, rejw = c.get('accepted.wild', 0), c.get('rejected.wild', 0)
     if accw + rejw == 0 or accw / (accw + rejw) < 0.3:
         out.append(f'wild-spelling acceptance {accw}/{accw + rejw} < 30%')
+    if not c.get('undefined_macro_calls'):
+        out.append('no call of a macro defined by an earlier source was tried')
     b = agg['tables'].get('battery', {})
     if b.get('rejected', 0) > len(BATTERY) // 2:
         out.append('more than half of the fixed battery rejected')
@@ -274,5 +324,14 @@ def finalize(agg, tier):
 
 
 def replay(case, ctx):
+    if case.get('kind') == 'undef-macro':
+        # the earlier definition is part of the witness: define, then call
+        parsing = env.mods()[1]
+        try:
+            parsing.compile_script(f'!= {case["name"]} [ a b c ] {{ true }}')
+            parsing.compile_script(f'!= {case["name"]} [ ] {{ true }}')
+        except BaseException:
+            pass
+        return judge_undefined_macro(ctx, case['src'], case['name'])
     judge_source(ctx, case['src'], case['ref'], set(case.get('features', [])),
                  None, 'replay')
